@@ -51,3 +51,44 @@ Fixpoint sorted_tree (n : node) : bool :=
 
 Definition sorted_otree (on : option node) : bool :=
   match on with Some n => sorted_tree n | None => true end.
+
+(** * The copy as LocalFileSystem.Copy performs it since repair c02copy: into a temporary
+      name next to the destination, then [os.RemoveAll(dst)] and [os.Rename(tmp, dst)];
+      when the creation of some entry fails (a write error: disk full, file size limit),
+      [os.RemoveAll(tmp)] and nothing else. *)
+
+(** the walk up to the first failing entry: entries before index [k] are created *)
+Definition copy_entries_upto (s : option node) (dst : path) (stamp : N) (es : list (path * node)) (k : nat)
+  : option node := copy_entries s dst stamp (firstn k es).
+
+Definition walk_entries (n : node) (recursive : bool) : list (path * node) :=
+  if recursive then walk n [] else [([], n)].
+
+(** [fail_at = Some k]: creating entry number [k] of the walk fails.  Returns the state
+    when Copy returns and whether it succeeded. *)
+Definition copy_via_temp (s : option node) (dstp tmpp : path) (stamp : N) (n : node) (recursive : bool)
+    (fail_at : option nat) : option node * bool :=
+  let es := walk_entries n recursive in
+  match fail_at with
+  | Some k =>
+    if Nat.ltb k (List.length es) then
+      match copy_entries_upto s tmpp stamp es k with
+      | Some s1 => (remo (Some s1) tmpp, false)         (* os.RemoveAll(tmpPath) *)
+      | None => (s, false)
+      end
+    else (s, false)                                      (* no such entry: not a run of the code *)
+  | None =>
+    match copy_entries s tmpp stamp es with
+    | None => (s, false)
+    | Some s1 =>
+      match geto (Some s1) tmpp with
+      | None => (s, false)
+      | Some t =>
+        (* os.RemoveAll(dstPath); os.Rename(tmpPath, dstPath) *)
+        match seto (remo (remo (Some s1) dstp) tmpp) dstp t with
+        | Some s2 => (Some s2, true)
+        | None => (s, false)
+        end
+      end
+    end
+  end.
